@@ -14,6 +14,9 @@ NOT_APPLICABLE = {
 PENDING_REASON = "check not built yet (work in progress)"
 
 TECHNIQUE = {
+    "C04": "static analysis: the parser's code interpreted abstractly as a machine over line classes (loop fixpoint over all line sequences) with a step-type monitor; structural rules on the keyword table, line-number provenance and the cell-split regex AST",
+    "C05": "static analysis: the parser's code interpreted abstractly as a machine over line classes from every entry point (reachability of internal exceptions, exception class and filename obligations on every exit); structural rules for error line, reset and termination",
+    "C09": "static analysis: abstract evaluation of effective_tags / should_run / should_run_with_tags / add_* / outline builder on tokens (truth tables, provenance, effects) + the Scenario.run and container explorations (typestate monitors) + roll-up fixpoints",
     "C01": "static analysis: modular abstract interpretation (path-sensitive, finite domains, loop fixpoints) of Step.run, Scenario.run, ScenarioContainer.run, ScenarioOutline.run, run_model, run_hook, run_behave/main with iff-obligations per level + structural wiring rule",
     "C02": "static analysis: abstract interpretation of Step.run (outcome table) and Scenario.run (typestate monitor over step events), abstract evaluation of the step-iteration code on labelled tokens (order, copies), exception-containment exploration of Matcher.match",
     "C03": "static analysis: truth tables extracted from the Status enum source, decision tables of the mapping functions, loop-fixpoint exploration of the three compute_status roll-ups over all child-status sequences, cache/typestate obligations on every run(), effect rule on reset() chains",
